@@ -791,6 +791,7 @@ REPLAY_GO = r'''
 package space
 
 import (
+	"encoding/json"
 	"fmt"
 	"math"
 	"os"
@@ -853,6 +854,41 @@ func TestVerifC15Replay(t *testing.T) {
 			r = avx.%(fn)s(a, b)
 		}
 		fmt.Println("VERIF-C15 completed", r)
+	case "value":
+		var spec struct {
+			A, B []float32
+		}
+		if err := json.Unmarshal([]byte(os.Getenv("VERIF_C15_VECTORS")), &spec); err != nil {
+			panic(err)
+		}
+		a, b := verifAligned(len(spec.A), 0), verifAligned(len(spec.B), 0)
+		copy(a, spec.A)
+		copy(b, spec.B)
+		var k, p float32
+		switch "%(fn)s" {
+		case "EuclideanDistance":
+			p = nativeSpaceImpl{}.EuclideanDistance(a, b)
+			if impl == "sse" {
+				k = sse.EuclideanDistance(a, b)
+			} else {
+				k = avx.EuclideanDistance(a, b)
+			}
+		case "ManhattanDistance":
+			p = nativeSpaceImpl{}.ManhattanDistance(a, b)
+			if impl == "sse" {
+				k = sse.ManhattanDistance(a, b)
+			} else {
+				k = avx.ManhattanDistance(a, b)
+			}
+		default:
+			p = nativeSpaceImpl{}.CosineDistance(a, b)
+			if impl == "sse" {
+				k = sse.CosineDistance(a, b)
+			} else {
+				k = avx.CosineDistance(a, b)
+			}
+		}
+		fmt.Println("VERIF-C15 values", k, p, math.Abs(float64(k-p)) > 1e-4, false)
 	case "manhattan-overflow":
 		a, b := []float32{3e19, 1, 2, 3, 4, 5, 6, 7}, []float32{0, 0, 0, 0, 0, 0, 0, 0}
 		var k float32
@@ -876,14 +912,14 @@ func TestVerifC15Replay(t *testing.T) {
 '''
 
 
-def native(scratch, kind, impl, fn="EuclideanDistance", n=8):
+def native(scratch, kind, impl, fn="EuclideanDistance", n=8, vectors=None):
     tpath = os.path.join(scratch, "zz_verif_c15_%s_%s_test.go" % (kind.replace("-", "_"), impl))
     with open(tpath, "w") as f:
         f.write("//go:build verif\n" + REPLAY_GO % dict(fn=fn, n=n))
     ov = os.path.join(scratch, "ov-%s-%s.json" % (kind, impl))
     with open(ov, "w") as f:
         json.dump({"Replace": {os.path.join(REPO, "index/space/zz_verif_c15_test.go"): tpath}}, f)
-    env = dict(GOENV, VERIF_C15_KIND=kind, VERIF_C15_IMPL=impl)
+    env = dict(GOENV, VERIF_C15_KIND=kind, VERIF_C15_IMPL=impl, VERIF_C15_VECTORS=json.dumps(vectors or {}))
     p = subprocess.run(["go", "test", "-tags", "verif", "-vet=off", "-count=1", "-v", "-overlay", ov, "-run", "^TestVerifC15Replay$", "./index/space"],
                        cwd=REPO, env=env, stdout=subprocess.PIPE, stderr=subprocess.STDOUT, text=True)
     for line in p.stdout.splitlines():
@@ -1000,6 +1036,11 @@ def run(pid, tier, seed):
                 fn = {"_euclidean_distance_squared": "EuclideanDistance", "_manhattan_distance": "ManhattanDistance", "_cosine_similarity_dot_norm": "CosineDistance"}[v["kernel"].split(".", 1)[1]]
                 r = native(scratch, "oob", impl, fn, n=v["len"])
                 ok = r.startswith("CRASH")
+            elif v["kind"] == "value-mismatch":
+                impl = v["kernel"].split(".")[0]
+                fn = {"_euclidean_distance_squared": "EuclideanDistance", "_manhattan_distance": "ManhattanDistance", "_cosine_similarity_dot_norm": "CosineDistance"}[v["kernel"].split(".", 1)[1]]
+                r = native(scratch, "value", impl, fn, vectors={"A": v["a"], "B": v["b"]})
+                ok = r.startswith("VERIF-C15 values") and r.split()[4] == "true"
             elif v["kind"] == "fp-lemma" and "manhattan" in v["lemma"]:
                 r = native(scratch, "manhattan-overflow", "avx")
                 ok = r.startswith("VERIF-C15 values") and r.split()[4] != r.split()[5]
